@@ -3,6 +3,7 @@
 package gbn
 
 import (
+	"hash/crc32"
 	"sync/atomic"
 	"time"
 )
@@ -127,7 +128,18 @@ func vtraceRx(src any, b []byte) {
 	if len(b) > 1 {
 		seq = int(b[1])
 	}
-	vtrace(src, "rx", int(b[0]), seq, len(b))
+	vtrace(src, "rx", int(b[0]), seq, len(b), int(crc32.ChecksumIEEE(b)))
+}
+
+// vtraceTx reports a data-phase packet that is about to be handed to the
+// transport's send function: type byte, sequence byte (-1 if none), length and
+// a checksum of its bytes.
+func vtraceTx(src any, b []byte) {
+	seq := -1
+	if len(b) > 1 {
+		seq = int(b[1])
+	}
+	vtrace(src, "gtx", int(b[0]), seq, len(b), int(crc32.ChecksumIEEE(b)))
 }
 
 // VerifStopPongTicker stops the connection's pong ticker if it is still
